@@ -11,6 +11,8 @@ CLAIMED = {
              note="as C04; integer literals of value assignments are covered by the C07 check", ref='§4 C06'),
  'C03': dict(text="Exhaustive over module default x tag keyword x class x 9 tag positions (incl. nesting depth 2 and 3 and SEQUENCE OF/SET OF elements) x tagged type kind: the real front end output of each shape is loaded, the tag number is a free u64 variable, generate_module (format_tag, the automatic_tags and explicit-forcing logic of generate_choice / generate_sequence_or_set) runs from real MIR, and the rendering at the tagged position is compared with X.680 31.2.7; z3 decides the number for all u64.",
              note="lexer + linker (apply_tagging_environment) run natively per shape; marking on CHOICE/open-type kinds is not asserted (property's own note); DER bytes produced by rasn are outside", ref='§4 C03'),
+ 'C05': dict(text="(1) generator with the extension index `extensible: Option<usize>` a free 64-bit variable (and EXTENSIBILITY IMPLIED on/off) on SEQUENCE/SET/CHOICE/ENUMERATED of n members: z3 decides for all usize that member i is marked as extension addition iff i >= k and that #[non_exhaustive] follows marker-or-IMPLIED; (2) exhaustive text shapes (marker position, plain additions, [[ ]] groups with/without version number, nested, IMPLIED) through the real front end natively and the real generator MIR, judged against the expectation derived from the text.",
+             note="character-level parsing runs natively (bridge); SET with addition groups and a second ellipsis are rejected by the lexer (counted, not judged); CHOICE groups flattened (accepted)", ref='§4 C05'),
  'C14': dict(text="The numbering function the lexer calls for ENUMERATED bodies (assign_enumeral_indices), Enumerated::from and format_enum_members are executed from real MIR for every explicit/identifier-only pattern with <= 3 root items and <= 2 additions (thorough: 5 + 3, the property's own bound); every explicit number is a free 128-bit variable and z3 decides equality with the X.680 20.3-20.6 numbering written as formulas, distinctness, name order, the extension index and the emitted discriminant literals.",
              note="character-level parsing of the item list is outside; the glue of enumerated_body is reproduced by the harness and validated against native compilations (differential job, which also judges the native numbers against the reference); source validity per X.680 20.2-20.6 assumed", ref='§4 C14'),
 }
